@@ -33,6 +33,9 @@ type outcome struct {
 
 func (o outcome) clean() bool { return o.Kind == "ok" }
 
+// judgeable: harness problems and unmet premises are not verdicts about the object.
+func (o outcome) judgeable() bool { return o.Kind != "harness" && o.Kind != "premise" }
+
 func allClean(os []outcome) bool {
 	for _, o := range os {
 		if !o.clean() {
@@ -286,7 +289,9 @@ type stubClientSets struct {
 	client gatewayclientset.Interface
 }
 
-func (s *stubClientSets) GetAllClients() []gatewayclientset.Interface { return []gatewayclientset.Interface{s.client} }
+func (s *stubClientSets) GetAllClients() []gatewayclientset.Interface {
+	return []gatewayclientset.Interface{s.client}
+}
 func (s *stubClientSets) ClientFor(string) (gatewayclientset.Interface, error) {
 	return s.client, nil
 }
@@ -358,6 +363,12 @@ func applyLimiter(obj, prev *proxyv1alpha1.UpstreamCluster) (outs []outcome, rep
 // applied again (same name) before the reports; a second instance reports after the first one.
 func applyLimiterAs(obj, prev *proxyv1alpha1.UpstreamCluster, which int, recreate bool) (outs []outcome, reports int, ok bool) {
 	ls := bed.NewLimiterServer(bed.LimiterOptions{LeadAll: true})
+	// Premise of every limiter-side verdict: a NEW server starts from fresh state for the upstream (no conditions, no flow
+	// controls with the request ids / counts of an earlier incarnation). If the server under test carries state over from
+	// earlier servers of this process, what happens next says nothing about the OBJECT: not judged, only counted.
+	if why := limiterNotFresh(ls, obj); why != "" {
+		return []outcome{{"limiter-create", "premise", why}}, 0, true
+	}
 	consumer := "limiter-create"
 	apply := func(o *proxyv1alpha1.UpstreamCluster) outcome {
 		var err error
@@ -411,6 +422,30 @@ func applyLimiterAs(obj, prev *proxyv1alpha1.UpstreamCluster, which int, recreat
 	return outs, reports, true
 }
 
+// limiterNotFresh: "" when the new server holds nothing for the upstream yet.
+func limiterNotFresh(ls *bed.LimiterServer, obj *proxyv1alpha1.UpstreamCluster) (why string) {
+	rec := safely(func() {
+		st := ls.Handle.Store(0)
+		if st == nil {
+			return
+		}
+		if n := len(st.ListUpstream(obj.Name)); n > 0 {
+			why = fmt.Sprintf("a new limiter server already holds %d condition(s) of upstream %q", n, obj.Name)
+			return
+		}
+		for _, s := range obj.Spec.FlowControl.Schemas {
+			if _, err := st.GetFlowControl(obj.Name, s.Name); err == nil {
+				why = fmt.Sprintf("a new limiter server already holds a flow control %q of upstream %q", s.Name, obj.Name)
+				return
+			}
+		}
+	})
+	if rec != nil {
+		return "" // (judged by the normal path)
+	}
+	return why
+}
+
 // reportAs sends the honest reports of one gateway instance (see applyLimiter).
 func reportAs(ls *bed.LimiterServer, obj *proxyv1alpha1.UpstreamCluster, instance string, seq int) (outs []outcome, reports int) {
 	_ = ls.Limiter.Heartbeat(instance)
@@ -459,6 +494,10 @@ func reportAs(ls *bed.LimiterServer, obj *proxyv1alpha1.UpstreamCluster, instanc
 				ao = outcome{"limiter-acquire", "error", err.Error()}
 			case res == nil || len(res.Status.Results) != 1:
 				ao = outcome{"limiter-acquire", "error", "no result for the requested flow control"}
+			case res.Status.Results[0].Error == "RequestIDTooOld":
+				// says that the REQUEST is stale with respect to state the server already has for this instance — never
+				// "the object cannot be applied"; with a fresh server it cannot happen (request ids start at 1)
+				ao = outcome{"limiter-acquire", "premise", "RequestIDTooOld: the server has seen a newer request id of this instance for " + s.Name}
 			case res.Status.Results[0].Error != "":
 				ao = outcome{"limiter-acquire", "error", res.Status.Results[0].Error}
 			}
